@@ -160,6 +160,15 @@ func refEncodeTail(b []byte, o refOpts, ioErrors int32) []byte {
 	return refPutI32(b, ioErrors)
 }
 
+// refID is one (id, name) pair of an id list; refUidList/refGidList hold the lists found by
+// the last refDecodeList call.
+type refID struct {
+	ID   int32
+	Name string
+}
+
+var refUidList, refGidList []refID
+
 type refReader struct {
 	b   []byte
 	pos int
@@ -217,6 +226,7 @@ func (r *refReader) bytes(n int) []byte {
 // maxEntries bounds the loop; ok=false on malformed or truncated input.
 func refDecodeList(b []byte, o refOpts, maxEntries int) (ents []refEntry, ioErrors int32, consumed int, ok bool) {
 	r := &refReader{b: b}
+	refUidList, refGidList = nil, nil
 	var prev refEntry
 	for n := 0; ; n++ {
 		flags := r.u8()
@@ -315,9 +325,14 @@ func refDecodeList(b []byte, o refOpts, maxEntries int) (ents []refEntry, ioErro
 				break
 			}
 			nl := int(r.u8())
-			r.bytes(nl)
+			nm := r.bytes(nl)
 			if r.bad {
 				return nil, 0, 0, false
+			}
+			if pass == 0 {
+				refUidList = append(refUidList, refID{id, string(nm)})
+			} else {
+				refGidList = append(refGidList, refID{id, string(nm)})
 			}
 		}
 	}
